@@ -1487,6 +1487,116 @@ def fam_clim(w, acc):
         acc.fail(f"{cls_name}/permutation", dict(w, perm=p), msg)
 
 
+# ---- MutualInfoClimateNetwork: the matrix stored in / reloaded from the working directory
+
+def _clim_mi_reference(anomaly):
+    """Histogram MI (32 equal-width cells over the common range of the standardised anomalies,
+    stored in float32 as the library does); pairs involving a series with a value within 5e-5
+    cell widths of a cell boundary are NaN."""
+    X = anomaly - anomaly.mean(axis=0)
+    sd = np.sqrt((X * X).mean(axis=0))
+    with np.errstate(all="ignore"):
+        X = np.where(sd > 0, X / sd, 0.0)
+    X = X.astype(np.float32).astype(np.float64)
+    return hist_mi_reference(X, 32, guard=5e-5)[0]
+
+
+def _winter_rows(T):
+    return [t for t in range((T // 12) * 12) if t % 12 in (0, 1, 11)]
+
+
+def fam_midump(w, acc):
+    """mutual_information(anomaly, dump=True) / set_winter_only(.., dump=True): every matrix the
+    object returns or adopts equals the histogram MI of the anomaly series it was asked for - when
+    it is computed and stored, when it is read back (same object, a second object on the same
+    data), when the file in the working directory has the wrong shape, and when the selection of
+    samples (winter_only) changed since the file was written.  Runs in its own temporary working
+    directory; the previous one is restored."""
+    import shutil
+    from pyunicorn.climate import MutualInfoClimateNetwork
+    d = get_data(w["data"])
+    T, N = d.shape
+    cycle = 12
+    here = os.getcwd()
+    tmp = tempfile.mkdtemp(prefix="c10_midump_")
+    os.chdir(tmp)
+    try:
+        with quiet():
+            cd = _climate_data(d, cycle)
+            full = np.array(cd.anomaly(), dtype=np.float64)
+        rows = _winter_rows(T)
+        sel = {True: full[rows], False: full}
+        ref = {k: _clim_mi_reference(v) for k, v in sel.items()}
+        offd = ~np.eye(N, dtype=bool)
+        nontriv = n_nonconst(full) >= 2 and bool(np.isfinite(ref[False][offd]).any())
+        acc.case(wkey(w), nontriv, sample=w)
+
+        def judge(check, got, winter, step):
+            got = np.asarray(got)
+            if got.shape != (N, N):
+                acc.fail(f"MutualInfoClimateNetwork/{check}", dict(w, step=step), f"shape {got.shape}")
+                return
+            msg = cmp_defined(np.abs(got[offd]), ref[winter][offd])
+            if msg:
+                acc.fail(f"MutualInfoClimateNetwork/{check}", dict(w, step=step),
+                         f"{step}: {msg} (off-diagonal, row-major; reference = histogram MI of the "
+                         f"{'winter' if winter else 'full'} anomaly series)")
+
+        w0 = bool(w["winter_only"])
+        with quiet():
+            net = MutualInfoClimateNetwork(cd, threshold=0.5, winter_only=w0, silence_level=3)
+        judge("dump-equals-histogram-mi", net.similarity_measure(), w0, "constructor")
+        # -- store
+        with quiet():
+            m1 = np.array(net.mutual_information(sel[w0].copy(), dump=True))
+        judge("dump-equals-histogram-mi", m1, w0, "mutual_information(anomaly, dump=True) [store]")
+        if not os.path.isfile(net.mi_file):
+            acc.fail("MutualInfoClimateNetwork/dump-file-written", w, f"no file {net.mi_file!r} after dump=True")
+            return
+        # -- reload: same arguments, no arguments, a second object on the same data
+        with quiet():
+            m2 = np.array(net.mutual_information(sel[w0].copy(), dump=True))
+            m3 = np.array(net.mutual_information())
+            net2 = MutualInfoClimateNetwork(_climate_data(d, cycle), threshold=0.5, winter_only=w0,
+                                            silence_level=3)
+        for step, m in (("mutual_information(anomaly, dump=True) [reload]", m2),
+                        ("mutual_information() [reload]", m3),
+                        ("second object, same data and directory", np.array(net2.similarity_measure()))):
+            acc.case(wkey(w) + "|" + step, nontriv)
+            if m.shape != m1.shape or not np.array_equal(np.abs(m), np.abs(m1), equal_nan=True):
+                acc.fail("MutualInfoClimateNetwork/dump-reload-equal", dict(w, step=step),
+                         f"{step}: differs from the stored matrix")
+        # -- the selection of samples changes while the file exists (default dump=True)
+        for k, flag in enumerate([not w0, w0]):
+            acc.case(wkey(w) + f"|toggle{k}", nontriv)
+            with quiet():
+                net.set_winter_only(flag)
+            if bool(net.winter_only()) != flag:
+                acc.fail("MutualInfoClimateNetwork/set_winter_only-dump-equals-histogram-mi",
+                         dict(w, step=k), f"winter_only() reports {net.winter_only()!r}")
+            judge("set_winter_only-dump-equals-histogram-mi", net.similarity_measure(), flag,
+                  f"set_winter_only({flag}) #{k + 1} with the default dump=True")
+        # -- a file of the wrong shape in the directory is recomputed, not used
+        d2 = gen_data("ar", T, N + 1, w["data"].get("dseed", 1) + 1)
+        with quiet():
+            cd2 = _climate_data(d2, cycle)
+            an2 = np.array(cd2.anomaly(), dtype=np.float64)
+            for f in os.listdir("."):
+                os.remove(f)
+            net.mutual_information(sel[w0].copy(), dump=True)           # N x N file
+            net3 = MutualInfoClimateNetwork(cd2, threshold=0.5, winter_only=False, silence_level=3)
+        acc.case(wkey(w) + "|wrong-shape", True)
+        r3 = _clim_mi_reference(an2)
+        s3 = np.array(net3.similarity_measure())
+        o3 = ~np.eye(N + 1, dtype=bool)
+        msg = f"shape {s3.shape}" if s3.shape != (N + 1, N + 1) else cmp_defined(s3[o3], r3[o3])
+        if msg:
+            acc.fail("MutualInfoClimateNetwork/dump-wrong-shape-recomputed", w, msg)
+    finally:
+        os.chdir(here)
+        shutil.rmtree(tmp, ignore_errors=True)
+
+
 # =============================================================================== Surrogates tests
 
 def _normalise_rows(X):
@@ -1621,6 +1731,7 @@ FAMILIES = {
     "it": fam_it, "gaussinf": fam_gaussinf, "ccpure": fam_ccpure, "mipure": fam_mipure, "shuf": fam_shuf,
     "clim": fam_clim, "surr": fam_surr, "constnd": fam_constnd,
     "tsur": fam_tsur, "edges": fam_edges, "cns": fam_cns, "nd": fam_nd, "testdata": fam_testdata,
+    "midump": fam_midump,
 }
 
 KINDS = ["rand", "ar", "const", "dup", "anti", "ties", "lagcopy", "sine", "mixed"]
@@ -1903,6 +2014,11 @@ def build_round3_cases(tier, seed):
                                   "rseed": ds() % (2 ** 31)})
                 if N in ND_SHAPES:
                     cases.append({"family": "nd", "data": desc, "tau_max": int(min(tm, 2)), "shapes": ND_SHAPES[N]})
+    # ---- MutualInfoClimateNetwork: matrices stored in / read back from the working directory
+    for k in range(12 if thorough else 4):
+        desc = {"kind": ["ar", "rand", "lagcopy", "mixed"][k % 4], "T": int(rng.randint(36, 121)),
+                "N": int(rng.randint(3, 7)), "dseed": ds()}
+        cases.append({"family": "midump", "data": desc, "winter_only": bool(k % 2)})
     return cases
 
 
